@@ -77,7 +77,7 @@ def handle (op real : String) : Verdict := Id.run do
     return { kind := "spec", sig, key := s!"C20:started-despite-{why}", detail := s!"start-up went ahead: {op} -> {real}" }
   if model.startsWith "started" && real.startsWith "started" && model ≠ real then
     return { kind := "spec", sig, key := "C20:other-setting", detail := s!"expected {model}: {op} -> {real}" }
-  if real.startsWith "refused:0" then return { kind := "spec", sig, key := "C20:refused-with-exit-0", detail := s!"{op} -> {real}" }
+  if real.startsWith "refused:0" || (real.splitOn "exe=0").length > 1 || (real.splitOn "exe=running").length > 1 then return { kind := "spec", sig, key := "C20:refused-with-exit-0", detail := s!"{op} -> {real}" }
   if model ≠ real && !(model == "refused:1" && real.startsWith "refused:") then return { kind := "diff", sig, detail := model }
   return { kind := "ok", sig }
 
